@@ -184,6 +184,24 @@ func runC11(c *vf.Case) {
 	r := c.Rng
 	req := c11Sizes[c.Index%len(c11Sizes)]
 	page := syscall.Getpagesize()
+	if c.Index%3 == 2 {
+		// "every accepted size": requests outside the catalogue - powers of two below a page and their neighbours
+		// (rounded up to one page), arbitrary byte counts, arbitrary page multiples
+		switch r.Intn(4) {
+		case 0:
+			req = 1 << uint(r.Range(1, 11))
+		case 1:
+			req = 1<<uint(r.Range(1, 16)) + r.Range(-1, 1)
+		case 2:
+			req = r.Range(1, 5*page)
+		default:
+			req = r.Range(1, 64) * page
+		}
+		if req < 1 {
+			req = 1
+		}
+		c.Count("requests_drawn_outside_the_catalogue", 1)
+	}
 	want := req
 	if rem := req % page; rem > 0 {
 		want += page - rem
@@ -421,7 +439,7 @@ func init() {
 		ID:        "C11",
 		Technique: "reference-model monitor (ring positions as plain integers) over random Claim/Commit/Consume/Reset histories for every accepted size class; physical read-back through a window on the first mapping; /proc/self/maps, /dev/shm and fd census after Destroy; checkptr build",
 		Rule: "plus sparse probes on buffers of 4, 5, 6 and 8 GiB (never prefaulted; positions, stamps at both ends of every claim, mirror at the ring end); " +
-			"cases = (requested size from {1,4095,4096,4097,2..8,12,16,31,32 pages,10000,100000,1 MiB,1 MiB+1,3 MiB+1 page}, with and without prefault, chosen round-robin by case index) x random history of 50-500 Claim/Commit/Consume/Reset with amounts from {0,1,page-1,page,avail-1,avail,avail+1,size,2*size,MaxInt-{0,1,used,free,size},random}, each ending in Destroy; " +
+			"cases = (requested size from {1,4095,4096,4097,2..8,12,16,31,32 pages,10000,100000,1 MiB,1 MiB+1,3 MiB+1 page}, with and without prefault, chosen round-robin by case index; every third case draws the request instead: a power of two from 2 to 2048, a power of two up to 64 KiB plus or minus one, any byte count up to five pages, any multiple of up to 64 pages) x random history of 50-500 Claim/Commit/Consume/Reset with amounts from {0,1,page-1,page,avail-1,avail,avail+1,size,2*size,MaxInt-{0,1,used,free,size},random}, each ending in Destroy; " +
 			"non-trivial = the commits wrapped around the ring end at least once on that size; distinct = (size, call-sequence shape)",
 		Assumptions: []string{
 			"amounts are non-negative",
